@@ -54,6 +54,11 @@ Fixpoint dec_fuel (fuel : nat) (n : N) (acc : bytes) : bytes :=
 Definition decimal (z : Z) : bytes :=
   if z <? 0 then 45%N :: dec_fuel 40 (Z.to_N (- z)) [] else dec_fuel 40 (Z.to_N z) [].
 
+(* [b] repeated n times: how the harness writes the long bodies of the case files (a literal of
+   tens of thousands of bytes is more than Coq reads) *)
+Fixpoint brep (n : nat) (b : bytes) : bytes :=
+  match n with O => [] | S n' => b ++ brep n' b end.
+
 (* path.Ext of the last element *)
 Fixpoint ext_rev (r acc : bytes) : bytes :=
   match r with
